@@ -18,6 +18,11 @@ Conds == {
   [n |-> "ne",       e |-> CmpE("ne", Col(1), Col(3))],
   [n |-> "exprkey",  e |-> Eq(Arith("add", Col(1), LitI(1)), Col(3))],
   [n |-> "eq_or",    e |-> OrE(Eq(Col(1), Col(3)), Eq(Col(2), Col(4)))],
+  (* an OR whose branches mention different sides: a single-table branch next to an AND over both tables - the shapes the
+     optimizer derives per-table filters from *)
+  [n |-> "or_mixed",   e |-> OrE(Eq(Col(4), LitI(1)), AndE(Eq(Col(1), LitI(1)), Eq(Col(4), LitI(0))))],
+  [n |-> "or_mixed_r", e |-> OrE(AndE(Eq(Col(1), LitI(1)), Eq(Col(4), LitI(0))), Eq(Col(4), LitI(1)))],
+  [n |-> "or_mixed_3", e |-> OrE(OrE(AndE(Eq(Col(1), LitI(0)), Eq(Col(3), LitI(1))), Eq(Col(2), LitI(1))), AndE(Eq(Col(1), Col(3)), IsNullE(Col(4))))],
   [n |-> "notdist",  e |-> NotDistinctE(Col(1), Col(3))],
   [n |-> "eq_rconst", e |-> AndE(Eq(Col(1), Col(3)), Eq(Col(4), LitI(1)))],
   [n |-> "eq_lconst", e |-> AndE(Eq(Col(1), Col(3)), Eq(Col(2), LitI(1)))],
@@ -51,6 +56,12 @@ Sub == {
 
 (* joins under a filter / of three inputs: the composition most prone to planner mix-ups *)
 Three == {
+  [tag |-> <<"where", "cross_or_mixed">>,
+   q |-> Filter(Join("cross", A, Bt, True, 2, 2), OrE(Eq(Col(4), LitI(1)), AndE(Eq(Col(1), LitI(1)), Eq(Col(4), LitI(0)))))],
+  [tag |-> <<"where", "cross_or_mixed_r">>,
+   q |-> Filter(Join("cross", A, Bt, True, 2, 2), OrE(AndE(Eq(Col(1), LitI(1)), Eq(Col(4), LitI(0))), Eq(Col(4), LitI(1))))],
+  [tag |-> <<"where", "inner_or_mixed">>,
+   q |-> Filter(Join("inner", A, Bt, Eq(Col(1), Col(3)), 2, 2), OrE(Eq(Col(2), LitI(1)), AndE(Eq(Col(4), LitI(1)), Eq(Col(2), LitI(0)))))],
   [tag |-> <<"three", "inner_left">>,
    q |-> Join("left", Join("inner", A, Bt, Eq(Col(1), Col(3)), 2, 2), Scan("A"), Eq(Col(4), Col(5)), 4, 2)],
   [tag |-> <<"three", "left_inner">>,
